@@ -9,6 +9,8 @@ TREE_ASSUME = ["verif hook VerifShape is a faithful read-only walk of the real n
                "reference model treekit.Model (sorted slice + sort.Search) is correct",
                "rapid v1.3.0 generator/shrinker; go1.26.8 toolchain; files guarded by !go1.21 are not compiled"]
 
+C12_BUBBLE_TESTS = "TestChansMerge$|TestReplicate$|TestStreamMerge$|TestChansMergeInterfaceValues|TestStreamMergeSimultaneousEnd|TestChansMergeSharedInput|TestStreamMergeErrorStorm|TestReplicateInterfaceValues|TestStreamMergeWide|TestStreamMergeErrorBusySiblings"
+
 CHECKS = {
     "C01": {
         "level": "exploration",
@@ -189,9 +191,10 @@ CHECKS = {
         "technique": "property-based testing (rapid) of generated producer/consumer scripts in testing/synctest bubbles; multiset/order/termination oracle",
         "rule": ("kinds chans-merge, chans-merge-iface (chan error carrying nil values), replicate, stream-merge, stream-merge-burst (many rounds of inputs that end at the same instant), chans-merge-shared (another goroutine receives from input 0 as well; merged + taken = sent), stream-merge-error-storm (one failing input among idle context-aware ones, 100-500 rounds per case), replicate-iface (chan error with nil values, 0-5 destinations); merges of up to 130 inputs. non-trivial = >= 2 non-empty inputs of different lengths (one closes while another still has values), or arity in {0,1}, or an early Close (stream.Merge); replicate: >= 2 destinations and >= 2 values, or zero destinations; distinct = distinct plan JSON; R=3/10"),
         "assumptions": ["testing/synctest durable-block detection", "rapid v1.3.0; go1.26.8"],
-        "jobs": [{"pkg": "c12merge", "kinds": ["chans-merge", "chans-merge-iface", "replicate", "stream-merge", "stream-merge-burst", "chans-merge-shared", "stream-merge-error-storm", "replicate-iface", "stream-merge-wide", "stream-merge-error-busy-sibling"], "scale_thorough": 10, "shards_thorough": 16, "replay_reps": 30},
+        "jobs": [{"pkg": "c12merge", "run": "TestMergeRealClock", "kinds": ["merge-real-clock"], "scale_thorough": 10, "shards_thorough": 4},
+                 {"pkg": "c12merge", "run": C12_BUBBLE_TESTS, "kinds": ["chans-merge", "chans-merge-iface", "replicate", "stream-merge", "stream-merge-burst", "chans-merge-shared", "stream-merge-error-storm", "replicate-iface", "stream-merge-wide", "stream-merge-error-busy-sibling"], "scale_thorough": 10, "shards_thorough": 16, "replay_reps": 30},
                  {"pkg": "c12merge", "goarch": "386", "kinds": ["chans-merge", "stream-merge", "stream-merge-burst", "stream-merge-error-storm"], "run": "TestChansMerge$|TestStreamMerge", "scale_quick": 0.1, "scale_thorough": 1, "shards_thorough": 2},
-                 {"pkg": "c12merge", "race": True, "kinds": ["chans-merge", "chans-merge-iface", "replicate", "stream-merge", "stream-merge-burst", "chans-merge-shared", "stream-merge-error-storm", "replicate-iface", "stream-merge-wide", "stream-merge-error-busy-sibling"], "scale_quick": 0.15, "scale_thorough": 2, "shards_thorough": 4, "replay_reps": 20}],
+                 {"pkg": "c12merge", "race": True, "run": C12_BUBBLE_TESTS, "kinds": ["chans-merge", "chans-merge-iface", "replicate", "stream-merge", "stream-merge-burst", "chans-merge-shared", "stream-merge-error-storm", "replicate-iface", "stream-merge-wide", "stream-merge-error-busy-sibling"], "scale_quick": 0.15, "scale_thorough": 2, "shards_thorough": 4, "replay_reps": 20}],
     },
     "C13": {
         "level": "exploration",
@@ -215,7 +218,7 @@ CHECKS = {
         "technique": "property-based testing (rapid) in testing/synctest bubbles; order/gauge/error-provenance oracle",
         "rule": ("kinds map-iterator, map-stream (scripted bubble plans) and map-storm (5000-40000 zero-latency items per case in a bubble, every (parallelism, buffer) shape; non-trivial = parallelism >= 2) and map-finish-storm (0-3 items, 4-64 workers that all finish at the same instant, 300-1500 rounds per case). scripted plans (a failing f may return an error that wraps a context error; a source may block, idle, until its context ends): non-trivial = completion order differed from source order AND the gauge reached its bound (back-pressure engaged), or a failure surfaced with results still in flight; distinct = distinct plan JSON; R=3/10"),
         "assumptions": ["testing/synctest", "rapid v1.3.0; go1.26.8"],
-        "jobs": [{"pkg": "c14mapit", "run": "TestMapLockstepSource", "kinds": ["map-lockstep"], "scale_thorough": 4, "shards_thorough": 2},
+        "jobs": [{"pkg": "c14mapit", "run": "TestMapLockstepSource|TestMapRealClock", "kinds": ["map-lockstep", "map-real-clock"], "scale_thorough": 4, "shards_thorough": 4},
                  {"pkg": "c14mapit", "run": "TestMapIterator|TestMapStream|TestMapStorm|TestMapFinishStorm", "kinds": ["map-iterator", "map-stream", "map-storm", "map-finish-storm"], "scale_thorough": 8, "shards_thorough": 16, "replay_reps": 30},
                  {"pkg": "c14mapit", "goarch": "386", "run": "TestMapIterator|TestMapStream|TestMapStorm|TestMapFinishStorm", "kinds": ["map-iterator", "map-stream", "map-storm", "map-finish-storm"], "scale_quick": 0.1, "scale_thorough": 1, "shards_thorough": 2},
                  {"pkg": "c14mapit", "race": True, "run": "TestMapIterator|TestMapStream|TestMapStorm|TestMapFinishStorm", "kinds": ["map-iterator", "map-stream", "map-storm", "map-finish-storm"], "scale_quick": 0.1, "scale_thorough": 2, "shards_thorough": 4, "replay_reps": 20}],
@@ -293,9 +296,9 @@ RULE_ADDENDA = {
     "C09": " Kind own-real-clock (own process, real clock, no bubble: MapStream, Batch, Merge and MapStream over Batch with zero-latency sources; stop after j outputs or read to the end / error; Close within 10 s; then the ownership log of every source; non-trivial = a fault or an early stop). Kind panic-abandon: a consumer whose callback panics and whose deferred Close runs: still exactly one Close per stream.",
     "C10": " Close errors include context.Canceled / DeadlineExceeded themselves; kind pipe-gc (a properly closed sender's error survives GCs and finalizers); the package also runs for GOARCH=386.",
     "C11": " Plans also include sources whose Close takes time, batchSize MaxInt, 'long' streams of hundreds of batches with a bound on batch capacity, and BatchFunc predicates that take 2 x maxWait (old timers); a Next that has not returned after 10 s of active time is a 'stuck' violation. Kind batch-lib-source: Batch over the library's own streams (stream.Chan over a channel that may stay open, FromIterator, a Pipe, a Batch of a Batch): partition, sizes, end, and Close returning at any moment (non-trivial = at least 2 batches, or closed before the end).",
-    "C12": " Inputs may be the library's own streams or non-comparable struct values; failing inputs may fail at the same instant with errors of different concrete types; kind stream-merge-wide: 300 inputs that each have to deliver before any of them ends; kind stream-merge-error-busy-sibling: one input fails while the others sit in a Next call that ignores its context and returns only after the consumer has seen the failure (the error must not wait for them). Also runs for GOARCH=386.",
+    "C12": " Kind merge-real-clock (own process, real goroutines, no bubble): chans.Merge of 0-12 inputs, chans.Replicate to 0-5 destinations, stream.Merge with an optional failing input and an optional early Close: interleaving / completeness / first error / ownership, 10 s limit (non-trivial = at least 2 inputs or destinations). Inputs may be the library's own streams or non-comparable struct values; failing inputs may fail at the same instant with errors of different concrete types; kind stream-merge-wide: 300 inputs that each have to deliver before any of them ends; kind stream-merge-error-busy-sibling: one input fails while the others sit in a Next call that ignores its context and returns only after the consumer has seen the failure (the error must not wait for them). Also runs for GOARCH=386.",
     "C13": " Errors of mixed concrete types, n up to 8192 incl. multiples of 64, nested Do/Map inside the callbacks. Also runs for GOARCH=386.",
-    "C14": " Also: 'lockstep' sources that only produce once the consumer has taken the previous result (bubble, and kind map-lockstep on the real clock), contexts that are already done at construction, f errors with a value attached. Also runs for GOARCH=386.",
+    "C14": " Kind map-real-clock (own process, real goroutines, no bubble): MapIterator and MapStream with spinning f (later items finish first), source / f failures, early Close: order, exactly-once, gauge bound, error provenance, ownership, 10 s limit (non-trivial = n > parallelism >= 2). Also: 'lockstep' sources that only produce once the consumer has taken the previous result (bubble, and kind map-lockstep on the real clock), contexts that are already done at construction, f errors with a value attached. Also runs for GOARCH=386.",
     "C15": " Heap elements may hold pointers; setups include a big deque drained to a quarter; one call past the end may precede the mid ops; a second iterator may be open.",
     "C16": " Kind cond-real-storm (own process, real clock, no bubble): per round a waiter enters Wait while a Broadcast made without the lock is aimed at that instant, then - once the lock can be taken, i.e. the waiter has released it - one Signal; 0-4 further goroutines call Signal / Broadcast without the lock; everybody is through within 10 s (always non-trivial). The cond may be stored by value after construction ('by_value'); broadcast-storm variants with a shared RLocker and bursts of simultaneous Signals. Also runs for GOARCH=386.",
     "C17": " Real-clock kinds in c17old: pot-old-timers, pot-trigger-real (a trigger aimed at the end of a run), stop-reentrant (a group function that calls into the group while StopAndWait waits), group-dropped (a Group nobody references keeps running until stopped, across GCs). Also runs for GOARCH=386.",
